@@ -162,7 +162,7 @@ func (c *Cluster) serveScan(rs *RS, sc *ServerConn, req *Request, p *pb.ScanRequ
 			c.mu.Unlock()
 			if p.GetCloseScanner() { // closing an unknown / already closed scanner is harmless
 				c.Trace.Emit("scanClose", "scanner", int(p.GetScannerId()), "known", false)
-				sc.Send(Response{CallID: req.CallID, Msg: &pb.ScanResponse{MoreResults: proto.Bool(false)}})
+				c.send(sc, req, Response{CallID: req.CallID, Msg: &pb.ScanResponse{MoreResults: proto.Bool(false)}})
 				return
 			}
 			if p.GetRenew() {
@@ -178,14 +178,14 @@ func (c *Cluster) serveScan(rs *RS, sc *ServerConn, req *Request, p *pb.ScanRequ
 		if p.GetRenew() {
 			c.mu.Unlock()
 			c.Trace.Emit("scanRenew", "scanner", int(scn.id), "known", true)
-			sc.Send(Response{CallID: req.CallID, Msg: &pb.ScanResponse{ScannerId: proto.Uint64(scn.id), MoreResultsInRegion: proto.Bool(true), MoreResults: proto.Bool(true)}})
+			c.send(sc, req, Response{CallID: req.CallID, Msg: &pb.ScanResponse{ScannerId: proto.Uint64(scn.id), MoreResultsInRegion: proto.Bool(true), MoreResults: proto.Bool(true)}})
 			return
 		}
 		if p.GetCloseScanner() && p.GetNumberOfRows() == 0 {
 			delete(c.scanners, scn.id)
 			c.mu.Unlock()
 			c.Trace.Emit("scanClose", "scanner", int(scn.id), "known", true)
-			sc.Send(Response{CallID: req.CallID, Msg: &pb.ScanResponse{ScannerId: proto.Uint64(scn.id), MoreResults: proto.Bool(false)}})
+			c.send(sc, req, Response{CallID: req.CallID, Msg: &pb.ScanResponse{ScannerId: proto.Uint64(scn.id), MoreResults: proto.Bool(false)}})
 			return
 		}
 	} else {
@@ -281,7 +281,7 @@ func (c *Cluster) serveScan(rs *RS, sc *ServerConn, req *Request, p *pb.ScanRequ
 	c.mu.Unlock()
 	c.Trace.Emit("scanResp", "scanner", int(scn.id), "chunk", chunk, "moreInRegion", more, "noMoreResults", cut.NoMoreResults, "closed", closed, "call", callNo)
 	c.Trace.Emit("resp", "conn", sc.ID, "id", int(req.CallID), "exc", "")
-	sc.Send(Response{CallID: req.CallID, Msg: resp, CellBlock: cb})
+	c.send(sc, req, Response{CallID: req.CallID, Msg: resp, CellBlock: cb})
 }
 
 func metaHostOf(r *Region) string {
